@@ -24,12 +24,12 @@ def specifiedBranch (e : Elem) (parent : ParentGet) (key : String) : String :=
   | .ok (v3, st3) =>
     let value2IsInitial := match casc with
       | some (.val v) => v.isKw "initial" || (v.isKw "inherit" && parent.isNone)
-      | some (.pending (some v)) => v.isKw "initial"
+      | some (.pending (some v)) => v.isKw "initial" || (v.isKw "inherit" && parent.isNone)
       | some (.pending none) => false
       | none => !(isInherited key || isCustom key) || parent.isNone
     let value2IsInherit := match casc with
       | some (.val v) => v.isKw "inherit" && parent.isSome
-      | some (.pending (some v)) => v.isKw "inherit"
+      | some (.pending (some v)) => v.isKw "inherit" && parent.isSome
       | some (.pending none) => false
       | none => (isInherited key || isCustom key) && parent.isSome
     let step3 := if value2IsInitial then (if isCustom key then "initial-custom" else
